@@ -81,3 +81,67 @@ BUILDERS = {"turtlemd": turtlemd, "lammps": lammps, "gromacs": gromacs, "cp2k": 
 def read_vel(eng, conf):
     out = eng._read_configuration(conf)
     return np.array(out[0], dtype=float), np.array(out[1], dtype=float), out[2]
+
+
+# ---------------------------------------------------------------------------
+# variants with two different masses (copies of the example inputs in a scratch dir)
+# ---------------------------------------------------------------------------
+
+
+def hetero(name, wd, temperature=300):
+    """Engine `name` for a two-atom system with masses (15.999, 1.008); returns (engine, conf, masses)."""
+    from vf import scratch  # noqa: F401
+
+    if name == "turtlemd":
+        from infretis.classes.engines.factory import create_engine
+
+        p = os.path.join(_repo(), "turtlemd/H2")
+        with open(os.path.join(p, "infretis.toml"), "rb") as f:
+            cfg = tomli.load(f)
+        cfg["engine"]["particles"]["mass"] = [15.999, 1.008]
+        cfg["engine"]["particles"]["name"] = ["O", "H"]
+        eng = create_engine(cfg)
+        eng.input_path = p
+        return eng, os.path.join(p, f"conf.{eng.ext}"), np.array([15.999, 1.008])
+    if name == "gromacs":
+        return gromacs(temperature=temperature, masses=(15.999, 1.008)) + (np.array([15.999, 1.008]),)
+    if name == "lammps":
+        from infretis.classes.engines.lammps import LAMMPSEngine
+
+        src = os.path.join(_repo(), "lammps/H2/lammps_input")
+        dst = os.path.join(wd, "lammps_input")
+        shutil.copytree(src, dst)
+        data = open(os.path.join(dst, "lammps.data")).read()
+        data = data.replace("1 atom types", "2 atom types").replace("1\t1.007947\n", "1\t15.999\n2\t1.007947\n")
+        data = data.replace("2\t1\t1 0.000\t3.330", "2\t1\t2 0.000\t3.330")
+        open(os.path.join(dst, "lammps.data"), "w").write(data)
+        eng = LAMMPSEngine("lmp_mpi", dst, 0, 0, temperature)
+        return eng, os.path.join(dst, f"conf.{eng.ext}"), np.array(eng.mass, dtype=float).reshape(-1)
+    if name == "cp2k":
+        from infretis.classes.engines.cp2k import CP2KEngine
+
+        src = os.path.join(_repo(), "cp2k/H2/cp2k_input")
+        dst = os.path.join(wd, "cp2k_input")
+        shutil.copytree(src, dst)
+        txt = open(os.path.join(dst, "conf.xyz")).read().replace("  H  ", "  O  ", 1)
+        open(os.path.join(dst, "conf.xyz"), "w").write(txt)
+        eng = CP2KEngine("cp2k", dst, 1, 1, temperature)
+        return eng, os.path.join(dst, f"conf.{eng.ext}"), np.array(eng.mass, dtype=float).reshape(-1)
+    if name == "ase":
+        from ase.io import read, write
+        from infretis.classes.engines.factory import create_engine
+
+        p = os.path.join(_repo(), "ase/H2")
+        with open(os.path.join(p, "infretis0.toml"), "rb") as f:
+            cfg = tomli.load(f)
+        cfg["engine"]["calculator_settings"]["module"] = os.path.join(p, "H2-calc.py")
+        cfg["engine"]["integrator"] = "velocityverlet"
+        cfg["engine"]["temperature"] = temperature
+        eng = create_engine(cfg)
+        at = read(os.path.join(p, "conf.traj"))
+        at.set_chemical_symbols(["O", "H"])
+        conf = os.path.join(wd, "conf_OH.traj")
+        write(conf, at)
+        eng.input_path = wd
+        return eng, conf, np.array(at.get_masses(), dtype=float)
+    raise ValueError(name)
